@@ -151,7 +151,7 @@ func (x *exec_) doGRPC(o *stepObs, st *step, now int64) {
 		return
 	}
 	defer conn.Close()
-	ctx, cancel := context.WithTimeout(context.Background(), 3*time.Second)
+	ctx, cancel := context.WithTimeout(context.Background(), 10*time.Second)
 	defer cancel()
 	res, err := rc.call(ctx, conn, req)
 	if err == nil {
